@@ -23,7 +23,6 @@ from common import (Stream, budget, enc_op, canon_op_json, to_gq, dyadic, rng_fo
 ONE = 'one'
 
 OPEN_STATEMENTS = [
-    'weight_one_binary_addressing_valid for every exponent (exhaustive for exponent <= 3 only)',
     'weight_two_segment_code valid on its whole domain: FALSE on the current tree (known finding C09-w2seg-decoder); '
     'proved on 13 of the 15 vectors (weight_two_segment_code_valid_partial)',
     'extractor_sound / dissolve_sound / binary_code_transform_sound (action of the transformed operator on encoded states) and '
